@@ -3,6 +3,7 @@
 -/
 import CM.Driver.Codec
 import CM.Driver.RelOps
+import CM.Model.Shard
 open Lean
 namespace CM
 
@@ -25,6 +26,7 @@ def opVm (j : Json) : P Json := do
   let stores ← (← jArr (jFieldD j "stores" (.arr #[]))).mapM fun s =>
     match s with
     | .null => pure ({ size := none, table := [] } : MemStore)
+    | .str _ => pure ({ size := none, table := [], exact := true } : MemStore)
     | s => do pure ({ size := some (← s.getNat?), table := [] } : MemStore)
   let impureFns ← jStrs (jFieldD j "impure" (.arr #[]))
   let constFns ← (← jArr (jFieldD j "const_fns" (.arr #[]))).mapM fun r => do
@@ -102,12 +104,51 @@ def opStack (j : Json) : P Json := do
         (n, o)
       pure (Json.mkObj [("dir", toJson s.dir), ("fields", Json.mkObj fields)])
 
+/-- `{"op":"lru","size":n|null,"ops":[["get",h]|["set",h,v]|["clear"]]}` : the RAM table after every operation -/
+def opLru (j : Json) : P Json := do
+  let size : Option Nat ← match jFieldD j "size" .null with
+    | .null => pure none
+    | s => do pure (some (← s.getNat?))
+  let ops ← jArr (← jField j "ops")
+  let mut st : MemStore := { size := size, table := [] }
+  let mut outs : Array Json := #[]
+  for op in ops do
+    match ← jArr op with
+    | [.str "get", h] =>
+      let (r, st') := st.get (← hashOfJson h)
+      st := st'
+      outs := outs.push (Json.mkObj [("hit", .bool r.isSome), ("v", match r with | some v => valToJson v | none => .null),
+        ("n", toJson st.table.length)])
+    | [.str "set", h, v] =>
+      st := st.set (← hashOfJson h) (← valOfJson v)
+      outs := outs.push (Json.mkObj [("n", toJson st.table.length)])
+    | [.str "clear"] =>
+      st := st.clear
+      outs := outs.push (Json.mkObj [("n", toJson st.table.length)])
+    | [.str "keys"] =>
+      outs := outs.push (Json.mkObj [("keys", .arr (st.table.map fun (k, _) => hashToJson k).toArray)])
+    | _ => throw "bad lru op"
+  pure (Json.mkObj [("results", .arr outs)])
+
+/-- `{"op":"shard","keys":[..],"size":n|null,"key":k}` -/
+def opShard (j : Json) : P Json := do
+  let keys ← jStrs (← jField j "keys")
+  let key ← (← jField j "key").getStr?
+  let size : Option Nat ← match jFieldD j "size" .null with
+    | .null => pure none
+    | s => do pure (some (← s.getNat?))
+  match getShard keys size key with
+  | .ok (shard, count, idx) => pure (Json.mkObj [("shard", toJson shard), ("count", toJson count), ("idx", toJson idx)])
+  | .error e => pure (Json.mkObj [("err", errToJson e)])
+
 def dispatch (j : Json) : P Json := do
   let op ← (← jField j "op").getStr?
   match op with
   | "vm" => opVm j
   | "stack" => opStack j
   | "rel" => opRel j
+  | "lru" => opLru j
+  | "shard" => opShard j
   | "ping" => pure (Json.mkObj [("pong", .bool true)])
   | _ => throw s!"unknown op {op}"
 
